@@ -53,6 +53,7 @@ type readWriteSegment struct {
 	writingIdx        []byte
 
 	segmentSize uint32
+	closed      bool
 }
 
 func newReadWriteSegment(basePath string, baseOffset int64, segmentSize uint32, lastCrc uint32,
@@ -177,6 +178,12 @@ func (*readWriteSegment) OpenTimestamp() time.Time {
 func (ms *readWriteSegment) Close() error {
 	ms.Lock()
 	defer ms.Unlock()
+
+	if ms.closed {
+		// e.g. a segment that was deleted while truncating and is closed again when the WAL is cleared
+		return nil
+	}
+	ms.closed = true
 
 	err := multierr.Combine(
 		ms.txnMappedFile.Unmap(),
